@@ -662,7 +662,11 @@ impl RHistory {
     }
 
     fn reliable_backlog(&self, e: Ep) -> usize {
-        self.world.conn_ref(e).map(|c| c.verif_unacked().iter().map(|(_, v)| v.len()).sum()).unwrap_or(0)
+        // unacknowledged units: small messages and the not yet acknowledged slices of sliced ones
+        self.world
+            .conn_ref(e)
+            .map(|c| c.verif_unacked().iter().map(|(_, v)| v.iter().map(|(_, flags)| if flags.is_empty() { 1 } else { flags.iter().filter(|a| !**a).count().max(1) }).sum::<usize>()).sum())
+            .unwrap_or(0)
     }
     fn got_total(&self, e: Ep) -> usize {
         self.mons.get(&e).map(|m| m.got.values().map(|v| v.len()).sum()).unwrap_or(0)
@@ -675,6 +679,8 @@ impl RHistory {
             return;
         }
         let paired = self.pairs.get(&a) == Some(&bb);
+        let mut settled = false;
+        let mut stalled_rounds = 0;
         for _ in 0..max_rounds {
             if self.res.panicked {
                 return;
@@ -691,11 +697,19 @@ impl RHistory {
                 }
             }
             let after = (self.reliable_backlog(a), self.reliable_backlog(bb), self.got_total(a), self.got_total(bb));
-            if (after.0 == 0 && after.1 == 0) || after == before {
+            // an acknowledgement needs a round trip: only several rounds in a row without any change count as a stall
+            stalled_rounds = if after == before { stalled_rounds + 1 } else { 0 };
+            if (after.0 == 0 && after.1 == 0) || stalled_rounds >= 3 {
+                settled = true;
                 break;
             }
         }
         if self.res.panicked || !paired {
+            return;
+        }
+        if !settled {
+            // still making progress when the rounds ran out: nothing can be concluded
+            self.comment("heal: rounds exhausted while the backlog was still shrinking");
             return;
         }
         let clean = !self.mons.get(&a).map(|m| m.hostile_in).unwrap_or(false) && !self.mons.get(&bb).map(|m| m.hostile_in).unwrap_or(false);
